@@ -25,6 +25,11 @@ pub fn plan(tier: &str, seed: u64) -> Vec<Batch> {
         u.no_openat2 = true;
         unis.push(u);
     }
+    // reopening a descriptor that is itself the result of a reopen (not O_PATH): still a *new* open
+    // file description (own file offset)
+    for uni in [UniCfg::k(), UniCfg::e()] {
+        v.push(Batch { check: "C09".into(), phase: "ofd".into(), uni, seed, lo: 0, hi: ofd_cases().len() as u64, fresh: false, tier: tier.into(), extra: Value::Null });
+    }
     // callers with a private descriptor table (unshare(CLONE_FILES)): one universe each,
     // never reused (the caller thread keeps its private table)
     for uni in unis.iter() {
@@ -37,6 +42,91 @@ pub fn plan(tier: &str, seed: u64) -> Vec<Batch> {
         }
     }
     v
+}
+
+/// (target, flags of the first reopen, flags of the second reopen, C facade)
+pub fn ofd_cases() -> Vec<(&'static str, i32, i32, bool)> {
+    let mut v = Vec::new();
+    for c in [false, true] {
+        for (t, f1, f2) in [
+            ("dir/file", libc::O_RDONLY, libc::O_RDONLY),
+            ("dir/file", libc::O_RDWR, libc::O_RDWR),
+            ("dir/file", libc::O_RDONLY | libc::O_NONBLOCK, libc::O_RDONLY | libc::O_NONBLOCK),
+            ("dir/file", libc::O_RDWR, libc::O_RDONLY),
+            ("dir/file", libc::O_WRONLY | libc::O_APPEND, libc::O_WRONLY | libc::O_APPEND),
+            ("dir/sub", libc::O_RDONLY | libc::O_DIRECTORY, libc::O_RDONLY | libc::O_DIRECTORY),
+            ("dir/sub", libc::O_RDONLY, libc::O_RDONLY),
+        ] {
+            v.push((t, f1, f2, c));
+        }
+    }
+    v
+}
+
+struct Ofd {
+    shared: Option<String>,
+}
+impl Hooks for Ofd {
+    fn end_op(&mut self, _ctx: &mut RunCtx, rec: &mut OpRecord) {
+        // after the second reopen: move the new descriptor's offset, the old one's must stay
+        if rec.idx == 2 {
+            if let Outcome::Fd(newfd) = rec.outcome {
+                let old = crate::ops::slot(2);
+                if old >= 0 && old != newfd {
+                    unsafe {
+                        let before = libc::lseek(old, 0, libc::SEEK_CUR);
+                        let moved = libc::lseek(newfd, 3, libc::SEEK_SET);
+                        let after = libc::lseek(old, 0, libc::SEEK_CUR);
+                        if moved == 3 && before == 0 && after != 0 {
+                            self.shared = Some(format!("moving the file offset of the reopened descriptor {newfd} moved the offset of the descriptor it was reopened from ({old}): {before} -> {after}"));
+                        }
+                        libc::lseek(newfd, 0, libc::SEEK_SET);
+                    }
+                }
+            }
+        }
+    }
+}
+
+fn run_ofd(u: &mut Universe, b: &Batch, idx: u64, st: &mut Stats) -> bool {
+    let (target, f1, f2, c) = ofd_cases()[idx as usize % ofd_cases().len()];
+    let mut case = Case::new("C09", "ofd", b.uni.clone());
+    case.world = Some(world());
+    let mut ops = vec![
+        OpSpec::new(Op::Resolve { path: target.into(), nofollow: false }).store(1),
+        OpSpec::new(Op::Reopen { slot: 1, flags: f1 }).store(2),
+        OpSpec::new(Op::Reopen { slot: 2, flags: f2 }),
+    ];
+    if c {
+        ops = ops.into_iter().map(|o| o.c()).collect();
+    }
+    case.jobs = vec![ops];
+    case.extra = json!({"flags": f2, "target": target});
+    let mut h = Ofd { shared: None };
+    let out = run_case(u, &case, &mut h, false);
+    if let Some(e) = &out.harness_error {
+        st.harness_errors.push(format!("ofd {idx}: {e}"));
+        return false;
+    }
+    st.evaluations += 1;
+    st.merge_runout(&out);
+    st.nontrivial.insert(case.hash());
+    if let Some(r) = out.records.iter().find(|r| r.idx == 2) {
+        st.count(&format!("ofd.outcome.{}", r.outcome.class().split(':').take(3).collect::<Vec<_>>().join(":")), 1);
+        if let (Outcome::Fd(_), Some(f), Some(r1)) = (&r.outcome, &r.facts, out.records.iter().find(|r| r.idx == 1)) {
+            if let Some(f1facts) = &r1.facts {
+                if f.ino != f1facts.ino {
+                    let v = mk_violation(&case, &out, "C09", "different-inode", "reopen", format!("reopen of a reopened descriptor returned {:?}, the descriptor refers to {:?}", f.ino, f1facts.ino));
+                    st.violation(&v);
+                }
+            }
+        }
+    }
+    if let Some(d) = h.shared {
+        let v = mk_violation(&case, &out, "C09", "not-a-new-description:shared-file-offset", "reopen", d);
+        st.violation(&v);
+    }
+    !u.poisoned
 }
 
 /// (path, flags, decoy planted in the leader's table, C facade)
@@ -431,6 +521,12 @@ pub fn run(u: &mut Universe, b: &Batch, st: &mut Stats) {
     for idx in b.lo..b.hi {
         coord::progress(idx);
         let replay_private = b.phase == "replay" && b.extra["case"]["phase"].as_str() == Some("private-table");
+        if b.phase == "ofd" || (b.phase == "replay" && b.extra["case"]["phase"].as_str() == Some("ofd")) {
+            if !run_ofd(u, b, idx, st) {
+                return;
+            }
+            continue;
+        }
         if b.phase == "private-table" || replay_private {
             if !run_private(u, b, idx, st) {
                 return;
@@ -508,7 +604,7 @@ pub fn finalise(tier: &str, seed: u64, res: coord::CheckResult) -> i32 {
         tier,
         seed,
         "exploration",
-        "one evaluation = one history: resolve a handle (file, directory, fifo, symlink handle, character device) -> attacker operations on the handle's path (rename, replace by a same-named file/dir/symlink, unlink, rename an ancestor; 0-3 of them) -> renumber the handle's descriptor (0, 1, 2, 3, 5, 63, 150, 199 or unchanged) -> optionally mount tmpfs / a foreign directory over /proc, /proc/self, /proc/self/fd, /proc/thread-self -> reopen with a flag set from the power set of {access modes, O_APPEND, O_DIRECTORY, O_NOFOLLOW, O_CLOEXEC, O_TRUNC, O_NOATIME, O_CREAT, O_EXCL, O_TMPFILE, O_NOCTTY}; compared with the baseline (same handle type and flags, nothing in between); universes: K and E with private procfs, and with fsopen refused / the whole new mount API refused (non-private handles); private-table phase: the whole scenario runs in a caller thread with a private descriptor table (unshare(CLONE_FILES)) that opens the target itself, has the supervisor plant a decoy at the same descriptor number in the thread-group leader's table (or leave that number empty there), reopens through libpathrs (4 targets x flag sets x Rust/C, 60 cases per universe kind) and compares inodes itself: the answer must come from the calling thread's table; for the cases with a decoy every (system call of the reopen, errno of its catalogue) placement is enumerated as well (the call may fail, it never returns another inode); non-trivial = a history with at least one attacker / renumbering / mount step; distinct = hash of the case",
+        "one evaluation = one history: resolve a handle (file, directory, fifo, symlink handle, character device) -> attacker operations on the handle's path (rename, replace by a same-named file/dir/symlink, unlink, rename an ancestor; 0-3 of them) -> renumber the handle's descriptor (0, 1, 2, 3, 5, 63, 150, 199 or unchanged) -> optionally mount tmpfs / a foreign directory over /proc, /proc/self, /proc/self/fd, /proc/thread-self -> reopen with a flag set from the power set of {access modes, O_APPEND, O_DIRECTORY, O_NOFOLLOW, O_CLOEXEC, O_TRUNC, O_NOATIME, O_CREAT, O_EXCL, O_TMPFILE, O_NOCTTY}; compared with the baseline (same handle type and flags, nothing in between); universes: K and E with private procfs, and with fsopen refused / the whole new mount API refused (non-private handles); ofd phase: a descriptor that is itself the result of a reopen is reopened again with the same or other flags (Rust/C): the result has its own file offset; private-table phase: the whole scenario runs in a caller thread with a private descriptor table (unshare(CLONE_FILES)) that opens the target itself, has the supervisor plant a decoy at the same descriptor number in the thread-group leader's table (or leave that number empty there), reopens through libpathrs (4 targets x flag sets x Rust/C, 60 cases per universe kind) and compares inodes itself: the answer must come from the calling thread's table; for the cases with a decoy every (system call of the reopen, errno of its catalogue) placement is enumerated as well (the call may fail, it never returns another inode); non-trivial = a history with at least one attacker / renumbering / mount step; distinct = hash of the case",
         res,
         Map::new(),
         vec![
@@ -516,7 +612,7 @@ pub fn finalise(tier: &str, seed: u64, res: coord::CheckResult) -> i32 {
             "'new open file description' is checked through differing F_GETFL (kcmp is not available in this kernel)".into(),
         ],
         false,
-        &|b, run| if b.phase == "private-table" { None } else { Some(gen_case(b.seed, run, &b.uni)) },
+        &|b, run| if b.phase == "private-table" || b.phase == "ofd" { None } else { Some(gen_case(b.seed, run, &b.uni)) },
     )
     .exit_code
 }
